@@ -50,12 +50,13 @@ def bounds(tier):
                           '2 variables, coefficients in {-3,-2,2,3} (no units): all 256 row pairs + 480 seeded triples'],
                 'simplex': ['2 variables, <=3 constraints (>= or <=), coefficients [-2,2], all row pairs + 1500 seeded triples'],
                 'proofs': 'OmegaHOL / simplex_macro / integer_simplex on 250 seeded concrete systems (2-3 variables, 2-4 constraints, constants [-3,3]) + 576 systems bounding one linear form twice, in every order',
+                'branch_and_bound': '3000 seeded boxed integer systems (2-3 variables in [-3,3], 2-3 rows with >= 2 variables, coefficients [-3,3], bounds [-4,4]) against z3 LIA',
                 'constants': 'symbolic in [-%d,%d]' % (CRANGE, CRANGE)}
     return {'omega': ['2 variables, 3 constraints, coefficients [-3,3]', '3 variables, 3 constraints, coefficients [-1,1] exhaustive (19683) + [-2,2] 4000 seeded',
                       '2 variables, 4 constraints, coefficients [-2,2]: 8000 seeded', '4 variables, 4 constraints, coefficients [-2,2]: 800 seeded',
                       '2 variables, coefficients {-3,-2,2,3}: all pairs and triples; 3 variables {-3,-2,0,2,3}: 1600 seeded triples'],
             'simplex': ['2 variables <=3 constraints exhaustive [-2,2]', '3 variables, 3-4 constraints, 4000 seeded'],
-            'proofs': '4000 seeded concrete systems', 'constants': 'symbolic in [-%d,%d]' % (CRANGE, CRANGE)}
+            'proofs': '4000 seeded concrete systems', 'branch_and_bound': '40000 seeded boxed integer systems against z3 LIA', 'constants': 'symbolic in [-%d,%d]' % (CRANGE, CRANGE)}
 
 
 def setup(tier, seed):
@@ -104,6 +105,8 @@ def units(tier, seed):
             us.append(('proofs', seed, i, 25))
         for i in range(0, len(repeated_form_systems()), 48):
             us.append(('proofs', 'repeated', i, 48))
+        for i in range(0, 3000, 250):
+            us.append(('bnb', seed, i, 250))
     else:
         r2 = rows(2, -3, 3)
         for first in range(len(r2)):
@@ -134,6 +137,8 @@ def units(tier, seed):
             us.append(('proofs', seed, i, 50))
         for i in range(0, len(repeated_form_systems()), 48):
             us.append(('proofs', 'repeated', i, 48))
+        for i in range(0, 40000, 500):
+            us.append(('bnb', seed, i, 500))
     rnd.shuffle(us)
     return us
 
@@ -515,6 +520,83 @@ def run_proofs(u, out, twin):
     out['samples'].append({'concrete_system': [[list(r), '>=' if d == 0 else '<=', c] for r, c, d in rs]})
 
 
+# ------------------------------------------------------------------ D: branch and bound on boxed integer systems
+
+def bnb_system(rnd):
+    """Two or three integer variables, each boxed by unit atoms, plus 2-3 rows in which at least two variables occur.
+    -> (nv, [(row, bound, dir)]) with dir 0: >=, 1: <="""
+    nv = rnd.choice([2, 2, 3])
+    box = rnd.choice([1, 2, 3])
+    rs = []
+    for j in range(nv):
+        e = [0] * nv
+        e[j] = 1
+        rs.append((tuple(e), -box if rnd.random() < 0.8 else -rnd.randint(0, box), 0))
+        rs.append((tuple(e), box if rnd.random() < 0.8 else rnd.randint(0, box), 1))
+    for _ in range(rnd.choice([2, 2, 3])):
+        while True:
+            r = tuple(rnd.randint(-3, 3) for _ in range(nv))
+            if sum(1 for c in r if c != 0) >= 2:
+                break
+        rs.append((r, rnd.randint(-4, 4), rnd.randint(0, 1)))
+    return nv, rs
+
+
+def bnb_check(nv, rs):
+    """-> None or (kind, why)"""
+    from prover import simplex
+    ineqs = []
+    for r, b, d in rs:
+        jars = [simplex.Jar(r[j], VN[j]) for j in range(nv) if r[j] != 0]
+        ineqs.append(simplex.GreaterEq(jars, b) if d == 0 else simplex.LessEq(jars, b))
+
+    def go():
+        sx = simplex.Simplex()
+        sx.add_ineqs(*ineqs)
+        return simplex.branch_and_bound(sx, [], [])
+    try:
+        import io, contextlib
+        with contextlib.redirect_stdout(io.StringIO()):
+            res = call_with_budget(go, 10.0)
+    except (NonTermination, Exception):
+        return None
+    xs = [z3.Int('x%d' % j) for j in range(nv)]
+    zs = z3.Solver()
+    for r, b, d in rs:
+        l = sum(r[j] * xs[j] for j in range(nv))
+        zs.add(l >= b if d == 0 else l <= b)
+    truth = str(zs.check())
+    if isinstance(res, dict):
+        try:
+            vals = [Fraction(res.get(VN[j], 0)) for j in range(nv)]
+            ok = all(v.denominator == 1 for v in vals) and all((sum(r[j] * vals[j] for j in range(nv)) >= b) if d == 0 else (sum(r[j] * vals[j] for j in range(nv)) <= b) for r, b, d in rs)
+        except Exception:
+            ok = False
+        if not ok:
+            return 'bnb-bad-witness', 'branch_and_bound returns %r, which is not an integer solution (z3: %s)' % ({k: str(v) for k, v in res.items()}, truth)
+        return None
+    if isinstance(res, simplex.IntSimplexTree) and truth == 'sat':
+        m = zs.model()
+        return 'bnb-unsat-on-sat', 'branch_and_bound exhausts its search tree (no integer solution) although %s is one' % {VN[j]: m.eval(xs[j], model_completion=True).as_long() for j in range(nv)}
+    return None
+
+
+def run_bnb(u, out, twin):
+    _, seed, lo, n = u
+    for k in range(lo, lo + n):
+        nv, rs = bnb_system(random.Random('bnb-%s-%s' % (seed, k)))
+        out['evals'] += 1
+        out['keys'].add('b|%s' % (rs,))
+        if twin:
+            if not out['cex']:
+                out['cex'].append({'kind': 'twin', 'system': rs})
+            continue
+        bad = bnb_check(nv, rs)
+        if bad:
+            out['cex'].append({'kind': bad[0], 'why': bad[1], 'nv': nv, 'bnb': [seed, k], 'system': [[list(r), b, d] for r, b, d in rs]})
+    out['samples'].append({'boxed_integer_system': [[list(r), '>=' if d == 0 else '<=', b] for r, b, d in rs]})
+
+
 def run_unit(u):
     out = {'evals': 0, 'keys': set(), 'cex': [], 'samples': [], 'inconclusive': 0, 'stats': {}}
     twin = bool(os.environ.get('VERIF_TWIN'))
@@ -530,6 +612,8 @@ def run_unit(u):
             for dirs in itertools.product((0, 1), repeat=len(keys)):
                 total.add(run_simplex(keys, dirs, out, twin))
         out['samples'].append({'simplex_rows': [list(k) for k in keys], 'bounds': 'symbolic'})
+    elif u[0] == 'bnb':
+        run_bnb(u, out, twin)
     else:
         run_proofs(u, out, twin)
     out['stats'] = total.as_dict()
@@ -601,6 +685,10 @@ def replay(c):
         ok = all((sum(d['row'][j] * vals[j] for j in range(nv)) >= Fraction(*d['bound'])) if d['dir'] == '>=' else
                  (sum(d['row'][j] * vals[j] for j in range(nv)) <= Fraction(*d['bound'])) for d in sysd)
         return (kind == 'simplex-bad-witness' and not ok), 'simplex SAT %r on %r; satisfies: %s' % (s.mapping, sysd, ok)
+    if kind.startswith('bnb-'):
+        rs = [(tuple(r), b, d) for r, b, d in c['system']]
+        bad = bnb_check(c['nv'], rs)
+        return (bad is not None and bad[0] == kind), 'system %r: %s' % (rs, bad[1] if bad else 'not reproduced')
     # concrete proof checks
     rs = [(list(r), cc, d) for r, cc, d in c['system']]
     bad = concrete_checks(c['nv'], rs)
